@@ -7,6 +7,28 @@ fn arg<'a>(args: &'a [String], name: &str) -> Option<&'a str> {
     args.iter().position(|a| a == name).and_then(|i| args.get(i + 1)).map(|s| s.as_str())
 }
 
+fn finish(sum: &Summary, out: Option<&str>) -> ! {
+    let js = serde_json::to_string(sum).unwrap();
+    match out {
+        Some(p) => std::fs::write(p, js).unwrap(),
+        None => {
+            let mut brief = sum.clone();
+            let nt = brief.nontrivial_hashes.len();
+            brief.nontrivial_hashes.clear();
+            brief.samples.truncate(1);
+            println!("{}", serde_json::to_string_pretty(&brief).unwrap());
+            println!("nontrivial distinct: {nt}");
+        }
+    }
+    if sum.harness_error.is_some() {
+        exit(2);
+    }
+    if !sum.violations.is_empty() {
+        exit(1);
+    }
+    exit(0)
+}
+
 fn main() {
     install_quiet_panic_hook();
     let args: Vec<String> = std::env::args().collect();
@@ -15,6 +37,45 @@ fn main() {
         "run" => {
             let prop = args.get(2).expect("property id");
             let engine = arg(&args, "--engine").unwrap_or("seq");
+            if engine == "enc" {
+                let cases: u32 = arg(&args, "--cases").map(|s| s.parse().unwrap()).unwrap_or(1000);
+                let seed: u64 = arg(&args, "--seed").map(|s| s.parse().unwrap()).unwrap_or(1);
+                let replay_dir = arg(&args, "--replay-dir").unwrap_or("/verif/replays");
+                let shard: u32 = arg(&args, "--shard").map(|s| s.parse().unwrap()).unwrap_or(0);
+                let nshards: u32 = arg(&args, "--nshards").map(|s| s.parse().unwrap()).unwrap_or(1);
+                let ex = arg(&args, "--exhaustive").map(|s| s != "0").unwrap_or(false);
+                let sum = vh::enc::run_enc(cases, seed, replay_dir, if ex { Some((shard, nshards)) } else { None });
+                finish(&sum, arg(&args, "--out"));
+            }
+            #[cfg(feature = "shuttle")]
+            if engine == "shut" {
+                use vh::shut::*;
+                let cases: u32 = arg(&args, "--cases").map(|s| s.parse().unwrap()).unwrap_or(100);
+                let seed: u64 = arg(&args, "--seed").map(|s| s.parse().unwrap()).unwrap_or(1);
+                let replay_dir = arg(&args, "--replay-dir").unwrap_or("/verif/replays");
+                let schedules: u32 = arg(&args, "--schedules").map(|s| s.parse().unwrap()).unwrap_or(100);
+                let known: Vec<String> = arg(&args, "--known").map(|s| s.split(',').filter(|x| !x.is_empty()).map(|x| x.to_string()).collect()).unwrap_or_default();
+                let which = which_of(prop).unwrap_or_else(|| {
+                    eprintln!("property {prop} has no shuttle part");
+                    exit(2)
+                });
+                let spec = vh::gdrive::GSpec::<ShutCase> {
+                    property: prop,
+                    engine: "shut",
+                    config: "shuttle",
+                    tape_len: 260,
+                    max_shrink_iters: 200,
+                    decode: &|t| gen_shut_case(t, which, schedules),
+                    run: &|c| {
+                        let mut o = run_shut_case(which, c);
+                        o.violations.retain(|v| rule_belongs(prop, &v.rule));
+                        o
+                    },
+                    size: &|c| c.prog.nodes.len() + c.phase1.iter().map(|p| p.len()).sum::<usize>(),
+                };
+                let sum = vh::gdrive::gdrive(&spec, cases, seed, replay_dir, &known);
+                finish(&sum, arg(&args, "--out"));
+            }
             let spec = props::spec_for(prop, engine).unwrap_or_else(|| {
                 eprintln!("unknown property/engine {prop}/{engine}");
                 exit(2)
@@ -25,27 +86,55 @@ fn main() {
             let replay_dir = arg(&args, "--replay-dir").unwrap_or("/verif/replays");
             let known: Vec<String> = arg(&args, "--known").map(|s| s.split(',').filter(|x| !x.is_empty()).map(|x| x.to_string()).collect()).unwrap_or_default();
             let sum = run_prop(&spec, cases, seed, replay_dir, &known);
-            let js = serde_json::to_string(&sum).unwrap();
-            match out {
-                Some(p) => std::fs::write(p, js).unwrap(),
-                None => {
-                    let mut brief = sum.clone();
-                    let nt = brief.nontrivial_hashes.len();
-                    brief.nontrivial_hashes.clear();
-                    brief.samples.truncate(1);
-                    println!("{}", serde_json::to_string_pretty(&brief).unwrap());
-                    println!("nontrivial distinct: {nt}");
-                }
-            }
-            if sum.harness_error.is_some() {
-                exit(2);
-            }
-            if !sum.violations.is_empty() {
-                exit(1);
-            }
+            finish(&sum, out);
         }
         "replay" => {
             let path = args.get(2).expect("replay file");
+            let generic: serde_json::Value = serde_json::from_str(&std::fs::read_to_string(path).unwrap()).unwrap();
+            if generic.get("engine").and_then(|e| e.as_str()) == Some("enc") {
+                match vh::enc::replay(path) {
+                    Ok(v) => {
+                        for x in &v {
+                            println!("violation rule={} step={} {}", x.rule, x.step, x.detail);
+                        }
+                        if v.is_empty() {
+                            println!("no violation");
+                            exit(0);
+                        }
+                        exit(1);
+                    }
+                    Err(e) => {
+                        eprintln!("{e}");
+                        exit(2);
+                    }
+                }
+            }
+            #[cfg(feature = "shuttle")]
+            if generic.get("engine").and_then(|e| e.as_str()) == Some("shut") {
+                use vh::shut::*;
+                let prop = generic.get("property").and_then(|e| e.as_str()).unwrap_or("C16").to_string();
+                let which = which_of(&prop).expect("shuttle property");
+                match vh::gdrive::greplay::<ShutCase>(path, &|c| {
+                    let mut o = run_shut_case(which, c);
+                    o.violations.retain(|v| rule_belongs(&prop, &v.rule));
+                    o
+                }) {
+                    Ok(v) => {
+                        for x in &v {
+                            println!("violation rule={} step={} {}", x.rule, x.step, x.detail);
+                        }
+                        if v.is_empty() {
+                            println!("no violation");
+                            exit(0);
+                        }
+                        exit(1);
+                    }
+                    Err(e) => {
+                        eprintln!("{e}");
+                        exit(2);
+                    }
+                }
+            }
             let rp: Replay = serde_json::from_str(&std::fs::read_to_string(path).unwrap()).unwrap();
             let spec = props::spec_for(&rp.property, &rp.engine).expect("property/engine");
             match run_one(&spec, &rp.case) {
